@@ -1,0 +1,47 @@
+//go:build verif
+
+package shovel
+
+import (
+	"context"
+	"fmt"
+
+	"github.com/indexsupply/shovel/eth"
+	"github.com/indexsupply/shovel/wpg"
+)
+
+// Hooks of property C18 (data-race freedom).  Thin wrappers only: they let
+// the race workloads drive the partitioned loader and the concurrent insert
+// of a Task without a Postgres pool.
+
+// VerifRaceNewTask builds a Task the way NewTask does, minus the
+// "set application_name" round trip to Postgres.
+func VerifRaceNewTask(opts ...Option) (*Task, error) {
+	t := &Task{
+		ctx:         context.Background(),
+		batchSize:   1,
+		concurrency: 1,
+		destFactory: NewDestination,
+	}
+	for _, opt := range opts {
+		opt(t)
+	}
+	t.dests = make([]Destination, t.concurrency)
+	for i := 0; i < t.concurrency; i++ {
+		dest, err := t.destFactory(t.destConfig)
+		if err != nil {
+			return nil, fmt.Errorf("initializing destination: %w", err)
+		}
+		t.dests[i] = dest
+	}
+	t.filter = t.dests[0].Filter()
+	return t, nil
+}
+
+func (t *Task) VerifRaceLoad(ctx context.Context, url string, localHash []byte, start, limit uint64) ([]eth.Block, error) {
+	return t.load(ctx, url, localHash, start, limit)
+}
+
+func (t *Task) VerifRaceInsert(ctx context.Context, pg wpg.Conn, blocks []eth.Block) (int64, error) {
+	return t.insert(ctx, pg, blocks)
+}
